@@ -10,7 +10,11 @@ import translate_tie
 # "status below 500" test, so the exhaustive block itself decides `< 500` against `<= 500` / `< 499`
 KINDS = ["e", "200", "302", "499", "500"]
 EDGE = ["e", "E200", "E503", "E404", "100", "199", "200", "204", "299", "301", "399", "400",
-        "404", "418", "499", "500", "501", "502", "503", "599", "600", "0", "1000"]
+        "404", "418", "499", "500", "501", "502", "503", "599", "600", "0", "1000",
+        # transport errors of the kinds a retry policy might be tempted to treat specially, and 5xx/4xx
+        # responses carrying a Retry-After header: the property knows neither
+        "ec", "ed", "et", "503r0", "503r1", "503r3600", "500r120", "429r1", "E503"]
+FAILING = ["e", "500", "503", "E200", "599", "ec", "ed", "et", "503r0", "503r3600"]
 
 
 def pad(script, n):
@@ -33,7 +37,7 @@ def gen_cases(run):
         n = run.rng.choice([0, 0, 1, 1, 2, 3, 4, 5, 6, 8, 12])
         L = run.rng.randint(0, n + 2)
         # bias towards failing outcomes so that long retry chains occur
-        sc = [run.rng.choice(EDGE if run.rng.random() < 0.5 else ["e", "500", "503", "E200", "599"]) for _ in range(L)]
+        sc = [run.rng.choice(EDGE if run.rng.random() < 0.5 else FAILING) for _ in range(L)]
         cases.append((n, pad(sc, n)))
     # negative n: the loop never runs
     for n in (-1, -5):
@@ -41,8 +45,33 @@ def gen_cases(run):
     return cases, exhaustive_part
 
 
+def gen_groups(run):
+    """several requests, one after the other, through ONE middleware instance: the property holds of every
+    request, whatever the earlier ones did (exhausted, succeeded late, ...)"""
+    groups = []
+    k = 400 if run.thorough() else 60
+    for _ in range(k):
+        n = run.rng.choice([1, 1, 2, 3])
+        scs = []
+        for _ in range(run.rng.randint(2, 4)):
+            L = run.rng.randint(0, n + 1)
+            kind = run.rng.random()
+            if kind < 0.4:      # exhausts every attempt
+                sc = [run.rng.choice(FAILING) for _ in range(n + 1)]
+            elif kind < 0.8:    # succeeds on a retry
+                j = run.rng.randint(1, n)
+                sc = [run.rng.choice(FAILING) for _ in range(j)] + [run.rng.choice(["200", "404", "302"])]
+            else:
+                sc = [run.rng.choice(EDGE) for _ in range(L)]
+            scs.append(pad(sc, n))
+        groups.append((n, scs))
+    return groups
+
+
 def coq_outcome(i, tok):
-    if tok == "e":
+    if "r" in tok:              # a Retry-After header is not part of the model's response
+        tok = tok[:tok.index("r")]
+    if tok in ("e", "ec", "ed", "et"):
         return "RErr %d None" % i
     if tok.startswith("E"):
         return "RErr %d (Some {| r_id := %d; r_status := (%s)%%Z |})" % (i, i, tok[1:])
@@ -59,29 +88,43 @@ def coq_case(n, script, obs):
                obs["calls"], coq_opt(obs["resp"]), coq_opt(obs["err"]), obs["sleeps"]))
 
 
-def run_probe(probe, cases, delay_us, par):
-    inp = "".join("%d %d %d %s\n" % (i, n, delay_us, ",".join(sc)) for i, (n, sc) in enumerate(cases))
+def parse_obs(f, line):
+    if f[0] == "PANIC":
+        return {"calls": 9999, "resp": None, "err": None, "sleeps": 0, "panic": line}
+
+    def ident(x):
+        if x == "-":
+            return None
+        if x == "foreign" or int(x) < 0:
+            return 9999
+        return int(x)
+    return {"calls": int(f[0]), "resp": ident(f[1]), "err": ident(f[2]), "sleeps": int(f[3]) + (1 - int(f[4]))}
+
+
+def run_jobs(probe, jobs, delay_us, par):
+    """jobs: [(n, [script, ...])]: the scripts of one job are consecutive requests through one middleware
+    instance; returns [[obs, ...]]"""
+    inp = "".join("%d %d %d %s\n" % (i, n, delay_us, "|".join(",".join(sc) for sc in scs)) for i, (n, scs) in enumerate(jobs))
     rc, out, err = lib.sh([str(probe), str(par)], input=inp, timeout=3000)
     if rc != 0:
         raise lib.CheckBroken("rtprobe failed: " + err[-2000:])
-    obs = []
-    for line in out.splitlines():
-        f = line.split()
-        if f[1] == "PANIC":
-            obs.append({"calls": 9999, "resp": None, "err": None, "sleeps": 0, "panic": line})
+    res = []
+    for line, (n, scs) in zip(out.splitlines(), jobs):
+        rest = line.split(None, 1)[1] if " " in line else ""
+        if rest.startswith("PANIC"):
+            res.append([parse_obs(["PANIC"], line) for _ in scs])
             continue
+        parts = [x.split() for x in rest.split(" ; ")]
+        if len(parts) != len(scs):
+            raise lib.CheckBroken("rtprobe: %d observations for %d requests: %s" % (len(parts), len(scs), line))
+        res.append([parse_obs(f, line) for f in parts])
+    if len(res) != len(jobs):
+        raise lib.CheckBroken("rtprobe: %d results for %d jobs" % (len(res), len(jobs)))
+    return res
 
-        def ident(x):
-            if x == "-":
-                return None
-            if x == "foreign" or int(x) < 0:
-                return 9999
-            return int(x)
-        obs.append({"calls": int(f[1]), "resp": ident(f[2]), "err": ident(f[3]),
-                    "sleeps": int(f[4]) + (1 - int(f[5]))})
-    if len(obs) != len(cases):
-        raise lib.CheckBroken("rtprobe: %d results for %d cases" % (len(obs), len(cases)))
-    return obs
+
+def run_probe(probe, cases, delay_us, par):
+    return [o[0] for o in run_jobs(probe, [(n, [sc]) for n, sc in cases], delay_us, par)]
 
 
 def coq_mismatches(run, cases, obs, tag):
@@ -113,6 +156,14 @@ def main(run):
     cases, exhaustive_part = gen_cases(run)
     run.log("cases:", len(cases))
     obs = run_probe(probe, cases, 2000, 256)
+    groups = gen_groups(run)
+    gobs = run_jobs(probe, groups, 2000, 64)
+    job_of = {}                      # case index -> (group index, position): re-measured with its predecessors
+    for g, ((n, scs), os_) in enumerate(zip(groups, gobs)):
+        for k, (sc, o) in enumerate(zip(scs, os_)):
+            job_of[len(cases)] = (g, k)
+            cases.append((n, sc))
+            obs.append(o)
     mism = coq_mismatches(run, cases, obs, "c20cases")
     # timing-based sleep counting can be disturbed by scheduling stalls: EVERY mismatching case is re-run
     # alone, slowly, and kept only if it persists (none is dropped unexamined); when there are more
@@ -127,7 +178,8 @@ def main(run):
             if not pending:
                 break
             sub = [cases[i] for i in pending]
-            o2 = run_probe(probe, sub, 20000, 8)
+            jobs2 = [groups[job_of[i][0]] if i in job_of else (cases[i][0], [cases[i][1]]) for i in pending]
+            o2 = [o[job_of[i][1]] if i in job_of else o[0] for i, o in zip(pending, run_jobs(probe, jobs2, 20000, 8))]
             m2 = coq_mismatches(run, sub, o2, "c20re_%d" % attempt)
             last = {pending[j]: (v, o2[j]) for j, v in m2}
             pending = [pending[j] for j, _ in m2]
@@ -138,6 +190,7 @@ def main(run):
                   "theorem": "C20_stops_at_first_acceptable / C20_exhausted_returns_last",
                   "correspondence": "L1:C20:rtprobe vs Model/Retry.v",
                   "n": n, "script": sc, "observed": o,
+                  "earlier_requests_through_the_same_middleware": (groups[job_of[idx][0]][1][:job_of[idx][1]] if idx in job_of else []),
                   "how": "go run harness/go/cmd/rtprobe <<< '0 %d 20000 %s'" % (n, ",".join(sc))}
         run.violation(replay, no_input=(v != 2))
     if not proof_ok and not confirmed:
@@ -145,7 +198,7 @@ def main(run):
     # second tie: the model regenerated from retry.go by the translator, bridged to Model/Retry.v inside Coq
     tie = translate_tie.translation_tie(run, "retry")
     run.log("translation tie:", tie["status"])
-    if tie["status"].startswith("bridge-broken") and not confirmed:
+    if lib.tie_broken(tie["status"]) and not confirmed:
         # code and model are no longer provably equal on ALL inputs, and the differential stream found no input
         run.violation({"kind": "translation-bridge-broken", "bridge": tie["status"], "functions": tie.get("functions"),
                        "theorem": "coq/Bridge/RetryBridge.v (generated model of middleware/retry.go = Model/Retry.v)",
@@ -162,9 +215,12 @@ def main(run):
         "distinct_nontrivial": len(retried),
         "rule": ("all scripts of length <= %d over {transport error, 2xx, 3xx, 4xx, 5xx} x n in 0..5 "
                  "(%d cases, scripts shorter than n+1 padded with transport errors), plus %d random scripts "
-                 "with boundary statuses (499/500/501, responses accompanied by errors, n up to 12) and n<0; "
+                 "with boundary statuses (499/500/501, responses accompanied by errors, context/timeout transport "
+                 "errors, responses with Retry-After, n up to 12), n<0, and %d groups of 2-4 consecutive requests through "
+                 "ONE middleware instance; "
                  "non-trivial = distinct (n, script) on which the implementation made at least two calls"
-                 % (6 if run.thorough() else 3, exhaustive_part, len(cases) - exhaustive_part)),
+                 % (6 if run.thorough() else 3, exhaustive_part, len(cases) - exhaustive_part - sum(len(g[1]) for g in groups),
+                    len(groups))),
         "exhaustive": bool(run.thorough()),
         "traces_validated_against_impl": len(cases),
         "calls_distribution": {str(k): v for k, v in sorted(dist.items())},
@@ -191,7 +247,8 @@ def replay(run, path):
     run.prove("Properties/C20.v", ["Corr/RetryCorr.v"])
     probe = run.build_helper("rtprobe")
     cases = [(r["n"], r["script"])]
-    obs = run_probe(probe, cases, 20000, 1)
+    pre = r.get("earlier_requests_through_the_same_middleware") or []
+    obs = [run_jobs(probe, [(r["n"], pre + [r["script"]])], 20000, 1)[0][-1]]
     m = coq_mismatches(run, cases, obs, "c20replay")
     print("observed:", obs[0], "verdict:", m)
     if m:
